@@ -58,6 +58,9 @@ type wNode struct {
 	Pos     token.Pos
 	Version bool // alt: guard over the version only
 	Sink    types.Object // decode tok: the variable the token is read into (identifiers only)
+	Src     ast.Expr     // encode: the expression written / the block encoded; decode: the lvalue read into / the block decoded
+	Wrap    string       // "len" / "elem": the token carries the length / an element of Src
+	Range   ast.Expr     // rep: the collection ranged over (encode) / the bound n of i < n (decode)
 }
 
 type wFunc struct {
@@ -78,6 +81,7 @@ type wFunc struct {
 	loopDepth   int
 	aliases     map[types.Object]ast.Expr // locals defined once from a version-only expression
 	recvVer     bool                      // the receiver's Version field is the protocol version (the decoder takes a version)
+	wp          *wPaths
 }
 
 var tokDual = map[string]string{
@@ -111,7 +115,7 @@ var tokDual = map[string]string{
 // and the array primitives are a length followed by the elements.
 var tokCanon = map[string]string{
 	"ArrayLength": "Int32", "CompactArrayLength": "UVarint",
-	"NullableString": "String", "NullableCompactString": "CompactString",
+	// "NullableString": "String", "NullableCompactString": "CompactString",
 }
 
 var tokExpand = map[string][2]string{
@@ -133,6 +137,25 @@ func (w *wFunc) mentionsRecv(n ast.Node) bool {
 	found := false
 	ast.Inspect(n, func(x ast.Node) bool {
 		if id, ok := x.(*ast.Ident); ok && w.recv != nil && w.info.Uses[id] == w.recv {
+			found = true
+		}
+		return !found
+	})
+	return found
+}
+
+// mentionsCoderBeyond: the coder is used other than as the receiver of a call of the given position-neutral method.
+func (w *wFunc) mentionsCoderBeyond(n ast.Node, method string) bool {
+	found := false
+	ast.Inspect(n, func(x ast.Node) bool {
+		if call, ok := x.(*ast.CallExpr); ok {
+			if sel, ok := call.Fun.(*ast.SelectorExpr); ok && sel.Sel.Name == method && len(call.Args) == 0 {
+				if id, ok := sel.X.(*ast.Ident); ok && w.info.Uses[id] == w.coder {
+					return false
+				}
+			}
+		}
+		if id, ok := x.(*ast.Ident); ok && w.info.Uses[id] == w.coder {
 			found = true
 		}
 		return !found
@@ -271,7 +294,14 @@ func (w *wFunc) coderCall(call *ast.CallExpr, sinks []ast.Expr) (*wNode, bool) {
 					sink = w.info.ObjectOf(sid)
 				}
 			}
-			return &wNode{K: wTok, Name: k, Arg: arg, Pos: call.Pos(), Sink: sink}, true
+			var src ast.Expr
+			if w.side == "encode" && len(call.Args) > 0 {
+				src = call.Args[0]
+			}
+			if w.side == "decode" && len(sinks) > 0 {
+				src = sinks[0]
+			}
+			return &wNode{K: wTok, Name: k, Arg: arg, Pos: call.Pos(), Sink: sink, Src: src}, true
 		}
 		switch name {
 		case "push":
@@ -317,7 +347,7 @@ func (w *wFunc) coderCall(call *ast.CallExpr, sinks []ast.Expr) (*wNode, bool) {
 					args = append(args, "expr:"+exprText(w.fset, a))
 				}
 			}
-			return &wNode{K: wSub, Name: tn, Arg: strings.Join(args, ","), Pos: call.Pos()}, true
+			return &wNode{K: wSub, Name: tn, Arg: strings.Join(args, ","), Pos: call.Pos(), Src: sel.X}, true
 		}
 	}
 	return nil, false
@@ -499,7 +529,7 @@ func (w *wFunc) stmt(s ast.Stmt) (items []*wNode, stop bool) {
 			init, _ := w.stmt(x.Init)
 			items = append(items, init...)
 		}
-		if w.mentionsCoder(x.Cond) {
+		if w.mentionsCoderBeyond(x.Cond, "remaining") {
 			w.unsup(x.Cond.Pos(), "the coder is used in a condition")
 		}
 		if w.isErrCheck(x.Cond) && onlyReturns(x.Body) {
@@ -613,7 +643,11 @@ func (w *wFunc) stmt(s ast.Stmt) (items []*wNode, stop bool) {
 		} else {
 			w.unsup(x.Pos(), "loop without an upper bound of the form i < n")
 		}
-		return []*wNode{{K: wRep, Body: body, Count: count, Pos: x.Pos()}}, false
+		var bound ast.Expr
+		if b, ok := x.Cond.(*ast.BinaryExpr); ok && b.Op == token.LSS {
+			bound = b.Y
+		}
+		return []*wNode{{K: wRep, Body: body, Count: count, Pos: x.Pos(), Range: bound}}, false
 	case *ast.RangeStmt:
 		if w.mentionsCoder(x.X) {
 			w.unsup(x.Pos(), "the coder is used in a range expression")
@@ -624,7 +658,7 @@ func (w *wFunc) stmt(s ast.Stmt) (items []*wNode, stop bool) {
 		if len(body) == 0 {
 			return nil, false
 		}
-		return []*wNode{{K: wRep, Body: body, Count: "range " + exprText(w.fset, x.X), Pos: x.Pos()}}, false
+		return []*wNode{{K: wRep, Body: body, Count: "range " + exprText(w.fset, x.X), Pos: x.Pos(), Range: x.X}}, false
 	case *ast.DeferStmt:
 		if w.mentionsCoder(x.Call) {
 			w.unsup(x.Pos(), "deferred coder call")
@@ -864,7 +898,7 @@ func (w *wFunc) inlined(items []*wNode, ver int64, pairs map[string]*wirePair, d
 			}
 			out = append(out, f.inlined(stripEnd(body), sv, pairs, depth+1)...)
 		case wRep:
-			out = append(out, &wNode{K: wRep, Body: w.inlined(n.Body, ver, pairs, depth), Count: n.Count, Pos: n.Pos})
+			out = append(out, &wNode{K: wRep, Body: w.inlined(n.Body, ver, pairs, depth), Count: n.Count, Pos: n.Pos, Range: n.Range})
 		case wAlt:
 			t, e := w.inlined(n.Then, ver, pairs, depth), w.inlined(n.Else, ver, pairs, depth)
 			if wEqual(t, e) {
@@ -965,7 +999,7 @@ func (w *wFunc) specK(items []*wNode, env wEnv, ver int64, k func(wEnv) []*wNode
 		if len(body) == 0 || isAbort(body) {
 			return tail
 		}
-		return append([]*wNode{{K: wRep, Body: body, Count: n.Count, Pos: n.Pos}}, tail...)
+		return append([]*wNode{{K: wRep, Body: body, Count: n.Count, Pos: n.Pos, Range: n.Range}}, tail...)
 	case wCont:
 		return nil
 	case wTok:
@@ -975,10 +1009,10 @@ func (w *wFunc) specK(items []*wNode, env wEnv, ver int64, k func(wEnv) []*wNode
 		}
 		tail := next(e2)
 		if ex, ok := tokExpand[n.Name]; ok {
-			return append([]*wNode{{K: wTok, Name: ex[0], Arg: n.Arg, Pos: n.Pos}, {K: wRep, Body: []*wNode{{K: wTok, Name: ex[1], Pos: n.Pos}}, Count: "elements of " + n.Arg, Pos: n.Pos}}, tail...)
+			return append([]*wNode{{K: wTok, Name: ex[0], Arg: n.Arg, Pos: n.Pos, Src: n.Src, Wrap: "len"}, {K: wRep, Body: []*wNode{{K: wTok, Name: ex[1], Pos: n.Pos, Src: n.Src, Wrap: "elem"}}, Count: "elements of " + n.Arg, Pos: n.Pos}}, tail...)
 		}
 		if c, ok := tokCanon[n.Name]; ok {
-			return append([]*wNode{{K: wTok, Name: c, Arg: n.Arg, Pos: n.Pos}}, tail...)
+			return append([]*wNode{{K: wTok, Name: c, Arg: n.Arg, Pos: n.Pos, Src: n.Src, Wrap: n.Wrap}}, tail...)
 		}
 		return append([]*wNode{n}, tail...)
 	default:
@@ -1153,6 +1187,11 @@ func wString(items []*wNode) string {
 type wirePair struct {
 	Type     string
 	enc, dec *wFunc
+	// field correspondence collected by the last comparison
+	fieldsOn      bool
+	fieldCompared int
+	fieldSkipped  int
+	fieldIssues   []string
 }
 
 type wireMismatch struct {
@@ -1186,9 +1225,10 @@ func (p *Prog) wireCompare(pr *wirePair, e, d []*wNode, ver int64, path string) 
 		}
 		switch x.K {
 		case wTok:
-			if x.Name != y.Name {
+			if x.Name != y.Name && !pr.nullableReadAsPlain(x, y) {
 				return false, fmt.Sprintf("%s: encode writes %s (%s) where decode reads %s (%s)", where, x.Name, p.posShort(x.Pos), y.Name, p.posShort(y.Pos))
 			}
+			pr.fieldPair(p, x, y, where)
 		case wPush:
 			if x.Name != y.Name {
 				return false, fmt.Sprintf("%s: encode pushes %s where decode pushes %s", where, x.Name, y.Name)
@@ -1198,10 +1238,14 @@ func (p *Prog) wireCompare(pr *wirePair, e, d []*wNode, ver int64, path string) 
 			if x.Name != y.Name {
 				return false, fmt.Sprintf("%s: encode writes a %s block where decode reads a %s block (%s, %s)", where, x.Name, y.Name, p.posShort(x.Pos), p.posShort(y.Pos))
 			}
+			pr.fieldPair(p, x, y, where)
 			if x.Arg != y.Arg && x.Arg != "" && y.Arg != "" {
 				return false, fmt.Sprintf("%s: block %s is encoded with arguments (%s) and decoded with (%s) (%s, %s)", where, x.Name, x.Arg, y.Arg, p.posShort(x.Pos), p.posShort(y.Pos))
 			}
 		case wRep:
+			if i > 0 && j > 0 {
+				pr.countLink(p, e[i-1], x, d[j-1], y, where)
+			}
 			if ok, msg := p.wireCompare(pr, x.Body, y.Body, ver, where+".loop"); !ok {
 				return false, msg
 			}
@@ -1231,6 +1275,58 @@ func (p *Prog) wireCompare(pr *wirePair, e, d []*wNode, ver int64, path string) 
 		return false, fmt.Sprintf("%s[%d]: decode goes on with %s (%s) where encode is finished", path, j, wString(d[j:]), p.posShort(d[j].Pos))
 	}
 	return true, ""
+}
+
+// nullableReadAsPlain: a nullable string may be read as a plain string (the absent string reads as "") when the
+// decoder restores the absent value: the temporary is stored through its address only under `tmp != ""`.
+func (pr *wirePair) nullableReadAsPlain(x, y *wNode) bool {
+	if !(x.Name == "NullableString" && y.Name == "String" || x.Name == "NullableCompactString" && y.Name == "CompactString") || y.Sink == nil {
+		return false
+	}
+	w := pr.dec
+	stores, guarded := 0, 0
+	var stack []ast.Node
+	ast.Inspect(w.fi.Body, func(n ast.Node) bool {
+		if n == nil {
+			stack = stack[:len(stack)-1]
+			return true
+		}
+		stack = append(stack, n)
+		as, ok := n.(*ast.AssignStmt)
+		if !ok {
+			return true
+		}
+		for _, r := range as.Rhs {
+			u, ok := ast.Unparen(r).(*ast.UnaryExpr)
+			if !ok || u.Op != token.AND {
+				continue
+			}
+			id, ok := ast.Unparen(u.X).(*ast.Ident)
+			if !ok || w.info.ObjectOf(id) != y.Sink {
+				continue
+			}
+			stores++
+			for k := len(stack) - 2; k >= 0; k-- {
+				ifs, ok := stack[k].(*ast.IfStmt)
+				if !ok {
+					continue
+				}
+				if b, ok := ast.Unparen(ifs.Cond).(*ast.BinaryExpr); ok && b.Op == token.NEQ {
+					if cid, ok := ast.Unparen(b.X).(*ast.Ident); ok && w.info.ObjectOf(cid) == y.Sink {
+						if lit, ok := ast.Unparen(b.Y).(*ast.BasicLit); ok && lit.Value == `""` {
+							// the store must be in the then-branch
+							if k+1 < len(stack) && stack[k+1] == ast.Node(ifs.Body) {
+								guarded++
+							}
+						}
+					}
+				}
+				break
+			}
+		}
+		return true
+	})
+	return stores > 0 && stores == guarded
 }
 
 // pickRepBranch: for an alternative whose branches differ only by loops (one has a loop where the other has
@@ -1398,6 +1494,9 @@ type wireVerdict struct {
 	RegionsSMT  string // query: every version guard is constant on every region
 	Shapes      map[int64]string
 	Unsupported []string
+	// field correspondence (only for pairs that are dual without writing nested blocks out)
+	FieldCompared, FieldSkipped int
+	FieldIssues                 []string
 }
 
 func (p *Prog) wireCheck(pr *wirePair) *wireVerdict {
@@ -1419,7 +1518,9 @@ func (p *Prog) wireCheck(pr *wirePair) *wireVerdict {
 			continue
 		}
 		v.Shapes[ver] = wString(e)
+		pr.fieldsOn = true
 		ok, msg := p.wireCompare(pr, e, d, ver, "v"+strconv.FormatInt(ver, 10))
+		pr.fieldsOn = false
 		if !ok {
 			// nested blocks written out: an encoder may write in place what the decoder reads through a block type
 			pairs := p.wirePairMap()
@@ -1438,6 +1539,16 @@ func (p *Prog) wireCheck(pr *wirePair) *wireVerdict {
 		}
 	}
 	v.RegionsSMT = pr.regionsQuery(v.Points)
+	v.FieldCompared, v.FieldSkipped = pr.fieldCompared, pr.fieldSkipped
+	seen := map[string]bool{}
+	for _, is := range pr.fieldIssues {
+		// the same pair of statements is met once per version: report it once
+		key := is[strings.Index(is, ": ")+2:]
+		if !seen[key] {
+			seen[key] = true
+			v.FieldIssues = append(v.FieldIssues, is)
+		}
+	}
 	return v
 }
 
@@ -1515,6 +1626,24 @@ func (p *Prog) wireResults(dir string) []*Result {
 		}
 		res.TimeS = time.Since(start).Seconds()
 		out = append(out, res)
+		// second clause: each token is stored into the field (length, key, element) it was written from
+		fob := &Oblig{Name: "wire/" + pr.Type + "/fields", Kind: "wire-fields", Func: pr.Type + ".encode", Label: "fields", Props: p.wireProps,
+			Pos:   p.posShort(pr.enc.fi.Body.Pos()),
+			Descr: "every token " + pr.Type + ".decode reads is stored into the field (or the length, key or element of the collection) that " + pr.Type + ".encode wrote it from"}
+		fres := &Result{Ob: fob, Solver: "lockstep", Status: "unknown"}
+		switch {
+		case res.Status != "unsat":
+			fres.Output = "the pair is not shown dual, so tokens are not matched"
+		case len(v.FieldIssues) > 0:
+			fres.Status = "sat"
+			fres.Output = strings.Join(v.FieldIssues, "\n")
+		case v.FieldCompared == 0:
+			fres.Output = "no token whose source and destination can both be determined"
+		default:
+			fres.Status = "unsat"
+			fres.Output = fmt.Sprintf("%d token comparisons over the versions compared, %d tokens skipped (source or destination not an access path)", v.FieldCompared, v.FieldSkipped)
+		}
+		out = append(out, fres)
 	}
 	return out
 }
